@@ -199,6 +199,7 @@ func runC16(c *Ctx) {
 		c.Case("fe.setbytes", "wrapper/setbytes/len", false, req)
 		c.Check3("fe.setbytes", "wrapper/setbytes/len", req, "fe.setbytes.spec p "+hexOrDash(x), impl)
 	}
+	runC16Wrap(c, crit)
 	runC16Compose(c)
 }
 
@@ -299,3 +300,143 @@ func runC16Compose(c *Ctx) {
 }
 
 func init() { runners["C16"] = runC16 }
+
+// runC16Wrap: the element WRAPPERS of sm2_element.go / sm2_scalar_element.go (hand-written model Model/Field.lean) on
+// raw limb patterns: IsZero, Equal, Select and the arithmetic methods with every aliasing of receiver and operands
+// (the Lean models are value-level; aliasing safety is structural + this run). Expectations are computed here:
+// IsZero = all limbs zero, Equal = same limbs (canonical operands), Select = a or b, aliased call = fresh call.
+func runC16Wrap(c *Ctx, crit []uint64) {
+	mods := map[string]*big.Int{"p": curveP, "n": curveN}
+	canon := func(fld string, l [4]uint64) bool {
+		v := new(big.Int)
+		for i := 3; i >= 0; i-- {
+			v.Lsh(v, 64)
+			v.Or(v, new(big.Int).SetUint64(l[i]))
+		}
+		return v.Cmp(mods[fld]) < 0
+	}
+	report := func(cl, req, got, want string) {
+		c.Case("fe.wrap", cl, false, req)
+		if got != want {
+			c.Disagree(Disagreement{Kind: "impl!=spec", Class: cl, Request: req, Impl: got, Spec: want, Stream: "fe.wrap"})
+		}
+	}
+	mkP := func(l [4]uint64) *sm2.VerifElement { return new(sm2.VerifElement).SetRaw(l) }
+	mkN := func(l [4]uint64) *sm2.VerifScalarElement {
+		e := new(sm2.VerifScalarElement)
+		*e.VerifRaw() = l
+		return e
+	}
+	b2i := func(b bool) int {
+		if b {
+			return 1
+		}
+		return 0
+	}
+	one := func(fld, pat string, a, b [4]uint64) {
+		if !canon(fld, a) || !canon(fld, b) {
+			return
+		}
+		req := fmt.Sprintf("fe.wrap %s %s %s", fld, limbsHex(a), limbsHex(b))
+		zero := a == [4]uint64{}
+		if fld == "p" {
+			report(fld+"/iszero/"+pat, req, fmt.Sprint(mkP(a).IsZero()), fmt.Sprint(b2i(zero)))
+			report(fld+"/equal/"+pat, req, fmt.Sprint(mkP(a).Equal(mkP(b))), fmt.Sprint(b2i(a == b)))
+			report(fld+"/equal-self/"+pat, req, fmt.Sprint(mkP(a).Equal(mkP(a))), "1")
+			for cond := 0; cond <= 1; cond++ {
+				want := b
+				if cond == 1 {
+					want = a
+				}
+				ea, eb := mkP(a), mkP(b)
+				report(fld+"/select/fresh/"+pat, req, limbsHex(*new(sm2.VerifElement).Select(ea, eb, cond).GetRaw()), limbsHex(want))
+				ea, eb = mkP(a), mkP(b)
+				report(fld+"/select/recv=a/"+pat, req, limbsHex(*ea.Select(ea, eb, cond).GetRaw()), limbsHex(want))
+				ea, eb = mkP(a), mkP(b)
+				report(fld+"/select/recv=b/"+pat, req, limbsHex(*eb.Select(ea, eb, cond).GetRaw()), limbsHex(want))
+			}
+			type bin struct {
+				name string
+				f    func(r, x, y *sm2.VerifElement) *sm2.VerifElement
+			}
+			for _, op := range []bin{
+				{"mul", func(r, x, y *sm2.VerifElement) *sm2.VerifElement { return r.Mul(x, y) }},
+				{"add", func(r, x, y *sm2.VerifElement) *sm2.VerifElement { return r.Add(x, y) }},
+				{"sub", func(r, x, y *sm2.VerifElement) *sm2.VerifElement { return r.Sub(x, y) }},
+			} {
+				fresh := limbsHex(*op.f(new(sm2.VerifElement), mkP(a), mkP(b)).GetRaw())
+				ea, eb := mkP(a), mkP(b)
+				report(fld+"/"+op.name+"/recv=x/"+pat, req, limbsHex(*op.f(ea, ea, eb).GetRaw()), fresh)
+				ea, eb = mkP(a), mkP(b)
+				report(fld+"/"+op.name+"/recv=y/"+pat, req, limbsHex(*op.f(eb, ea, eb).GetRaw()), fresh)
+				ea = mkP(a)
+				freshSelf := limbsHex(*op.f(new(sm2.VerifElement), mkP(a), mkP(a)).GetRaw())
+				report(fld+"/"+op.name+"/recv=x=y/"+pat, req, limbsHex(*op.f(ea, ea, ea).GetRaw()), freshSelf)
+			}
+			ea := mkP(a)
+			report(fld+"/square/recv=x/"+pat, req, limbsHex(*ea.Square(ea).GetRaw()), limbsHex(*new(sm2.VerifElement).Square(mkP(a)).GetRaw()))
+			ea = mkP(a)
+			report(fld+"/opp/recv=x/"+pat, req, limbsHex(*ea.Opp(ea).GetRaw()), limbsHex(*new(sm2.VerifElement).Opp(mkP(a)).GetRaw()))
+			return
+		}
+		report(fld+"/iszero/"+pat, req, fmt.Sprint(mkN(a).IsZero()), fmt.Sprint(b2i(zero)))
+		report(fld+"/equal/"+pat, req, fmt.Sprint(mkN(a).Equal(mkN(b))), fmt.Sprint(b2i(a == b)))
+		report(fld+"/equal-self/"+pat, req, fmt.Sprint(mkN(a).Equal(mkN(a))), "1")
+		for cond := 0; cond <= 1; cond++ {
+			want := b
+			if cond == 1 {
+				want = a
+			}
+			ea, eb := mkN(a), mkN(b)
+			report(fld+"/select/fresh/"+pat, req, limbsHex(*new(sm2.VerifScalarElement).Select(ea, eb, cond).VerifRaw()), limbsHex(want))
+			ea, eb = mkN(a), mkN(b)
+			report(fld+"/select/recv=a/"+pat, req, limbsHex(*ea.Select(ea, eb, cond).VerifRaw()), limbsHex(want))
+			ea, eb = mkN(a), mkN(b)
+			report(fld+"/select/recv=b/"+pat, req, limbsHex(*eb.Select(ea, eb, cond).VerifRaw()), limbsHex(want))
+		}
+		fresh := limbsHex(*new(sm2.VerifScalarElement).Mul(mkN(a), mkN(b)).VerifRaw())
+		ea, eb := mkN(a), mkN(b)
+		report(fld+"/mul/recv=x/"+pat, req, limbsHex(*ea.Mul(ea, eb).VerifRaw()), fresh)
+		ea, eb = mkN(a), mkN(b)
+		report(fld+"/mul/recv=y/"+pat, req, limbsHex(*eb.Mul(ea, eb).VerifRaw()), fresh)
+	}
+	for _, fld := range []string{"p", "n"} {
+		m := mods[fld]
+		for i := 0; i < 4; i++ {
+			for _, v := range crit {
+				var a [4]uint64
+				a[i] = v
+				one(fld, "crit1", a, limbsOf(new(big.Int).Sub(m, big.NewInt(1))))
+				one(fld, "crit1", a, a)
+				one(fld, "crit1", a, [4]uint64{})
+			}
+		}
+		for it := 0; it < 200; it++ {
+			var a, b [4]uint64
+			for i := 0; i < 4; i++ {
+				a[i] = crit[c.rng.Intn(len(crit))]
+				b[i] = crit[c.rng.Intn(len(crit))]
+			}
+			one(fld, "critmix", a, b)
+		}
+		// limbs whose low / high halves vanish (a 64-bit test narrowed to 32 bits sees zero: seeded C15-c)
+		for it := 0; it < 60; it++ {
+			var a, b [4]uint64
+			for i := 0; i < 4; i++ {
+				a[i] = uint64(c.rng.Intn(1<<30)) << 32
+				b[i] = uint64(c.rng.Intn(1 << 30))
+				if it%3 == 0 && i != it%4 {
+					a[i], b[i] = 0, 0
+				}
+			}
+			a[3] &= 0x7fffffff00000000
+			one(fld, "low-halves-zero", a, b)
+			one(fld, "high-halves-zero", b, a)
+		}
+		for it := 0; it < 100; it++ {
+			a := limbsOf(new(big.Int).Mod(new(big.Int).SetBytes(c.rng.Bytes(40)), m))
+			b := limbsOf(new(big.Int).Mod(new(big.Int).SetBytes(c.rng.Bytes(40)), m))
+			one(fld, "uniform", a, b)
+		}
+	}
+}
